@@ -479,20 +479,28 @@ def _mk_on_job(model, out, events, jobs):
     return on_job
 
 
-def family_c19(seed, model, out):
+def family_c19(seed, model, out, shape=None):
     """Scripted family of this property: up to 3 pull requests on overlapping cascades; pull request events,
     events on child pull requests and commit events on every source / w/ / q/ tip, shuffled with repetition; the
-    two settings on and off, the two options; then the decline path or the merge path for every pull request."""
+    two settings on and off, the two options; then the decline path or the merge path for every pull request.
+    shape 'A' / 'B' (always_create_integration_pull_requests on, two pull requests): the integration branches of a
+    pull request disappear while its integration pull requests are still OPEN - deleted by hand (A), or removed by
+    Bert-E after a PARTIAL queue merge (the author pushed one more commit after the pull request was queued) (B) -
+    and the next events re-create the branches: the open integration pull requests must be reused."""
     from lib import sysworld, histories
     from lib import mon_c19 as mon
     rng = random.Random(seed * 104729 + 7)
-    layouts = [l for l in histories.LAYOUTS if len(histories.dest_names(l)[0]) >= 2]
+    layouts = [l for l in histories.LAYOUTS if len(histories.dest_names(l)[0]) >= (3 if shape else 2)]
     layout = rng.choice(layouts)
     mode = rng.choice(['queue', 'queue', 'noqueue', 'skip'])
+    if shape == 'B':
+        mode = 'queue'
     cfg = {'layout': layout, 'use_queue': mode != 'noqueue', 'skip_queue': mode == 'skip',
            'no_octopus': rng.random() < 0.3, 'peers': 0, 'leaders': 0, 'need_author': False,
            'build_key': 'pre-merge', 'always_prs': rng.random() < 0.6, 'always_branches': rng.random() < 0.6,
            'cmd_line_options': []}
+    if shape:
+        cfg['always_prs'] = True
     world = sysworld.World(cfg)
     events, jobs = [], []
     on_job = _mk_on_job(model, out, events, jobs)
@@ -503,12 +511,14 @@ def family_c19(seed, model, out):
     try:
         dests, hot = histories.dest_names(layout)
         prs = []
-        for i in range(rng.choice([1, 2, 2, 3, 3])):
-            dst = rng.choice(dests[:-1]) if rng.random() < 0.8 else rng.choice(dests + hot)
+        for i in range(2 if shape else rng.choice([1, 2, 2, 3, 3])):
+            dst = rng.choice(dests[:-1]) if (shape or rng.random() < 0.8) else rng.choice(dests + hot)
+            if shape and i == 0:
+                dst = rng.choice(dests[:-2])          # at least two targets beyond the first
             src = '%s/TEST-%d%s' % (rng.choice(['bugfix', 'feature', 'improvement']), i + 1,
                                     rng.choice(['', '-fix', '-w-5.1', '/sub']))
             ev = {'e': 'create_pr', 'src': src, 'dst': dst, 'label': 'c%d' % (i + 1)}
-            roll = rng.random()
+            roll = 1.0 if shape else rng.random()
             if roll < 0.12:
                 ev['file'], ev['content'] = 'shared_a', 'content of %s\n' % src
             elif roll < 0.27 and dst in dests and dests.index(dst) < len(dests) - 1:
@@ -564,6 +574,30 @@ def family_c19(seed, model, out):
                 do({'e': 'comment', 'user': rng.choice([sysworld.AUTHOR, sysworld.PEER]), 'pr': p['id'],
                     'text': '@bert-e ' + how})
 
+        def w_tips(p):
+            return sorted(n for n in world.refs() if mon.parse_name(n)[0] == 'W' and mon.parse_name(n)[2] == p['src'])
+
+        if shape and len(prs) == 2:
+            p = prs[0]
+            for q in prs:
+                do({'e': 'job_pr', 'pr': q['id']})            # integration branches and pull requests exist
+            if shape == 'A':
+                some_event()
+                ws = w_tips(p)
+                for n in (ws if rng.random() < 0.5 else [rng.choice(ws)] if ws else []):
+                    do({'e': 'delete_branch_user', 'branch': n})   # by hand; the children stay OPEN
+            else:
+                for n in [p['src']] + w_tips(p):
+                    do({'e': 'build', 'ref': n, 'state': 'SUCCESSFUL'})
+                some_event(p)                                   # -> Queued
+                do({'e': 'push', 'branch': p['src'], 'label': 'late%d' % seed})
+                q = sorted(n for n in world.refs() if n.startswith('q/'))
+                for n in q:
+                    do({'e': 'build', 'ref': n, 'state': 'SUCCESSFUL'})
+                if q:
+                    do({'e': 'job_commit', 'ref': rng.choice(q)})  # partial merge: w/ removed, children OPEN
+            for _ in range(rng.randint(2, 3)):
+                some_event(p)                                   # re-creates the branches, reuses the children
         for _ in range(rng.randint(2, 4)):
             some_event()
         for p in prs:
@@ -624,7 +658,7 @@ def family_c19(seed, model, out):
             some_event()
     finally:
         world.close()
-    return {'cfg': cfg, 'events': events, 'seed': seed, 'family': 'c19'}, jobs
+    return {'cfg': cfg, 'events': events, 'seed': seed, 'family': 'c19' + (shape or '')}, jobs
 
 
 def run_twins(history, jobs, rng, out, how_many):
@@ -691,6 +725,9 @@ def _worker(args):
             h = replay_history
         elif family == 'c19':
             h, jobs = family_c19(seed, model, out)
+        elif family == 'c19r':
+            h, jobs = family_c19(seed, model, out, shape='A' if (seed // 6) % 2 == 0 else 'B')
+            out['hist']['shape:' + h['family']] = 1
         else:
             jobs = []
 
@@ -803,11 +840,13 @@ def run(ctx):
     else:
         kernel_cross_check(ctx)
     n = 48 if ctx.quick else 800
-    fams = ['c19', 'c19', 'c19', 'lifecycle', 'c19', 'random']
+    fams = ['c19', 'c19', 'c19r', 'lifecycle', 'c19', 'random']
     tasks = [(ctx.seed * 100000 + i, fams[i % len(fams)], exe, ctx.quick, None) for i in range(n)]
     for name, h in corpus():
         tasks.insert(0, (0, 'corpus:' + name, exe, ctx.quick, h))
-    ctx.rule = ('%d system histories on the real Bert-E (3/4 of them the scripted C19 family: <=3 pull requests on '
+    ctx.rule = ('%d system histories on the real Bert-E (2/3 of them the scripted C19 family, 1/6 of these with the '
+                'integration branches deleted by hand / removed after a partial queue merge while the integration '
+                'pull requests are open, then re-created: <=3 pull requests on '
                 'overlapping cascades, pull request / child pull request / commit events on every source, w/ and q/ '
                 'tip shuffled with repetition, always_create_integration_pull_requests / _branches on and off, the '
                 'two options and the author approval, then decline or merge; the rest from the shared lifecycle / '
